@@ -91,6 +91,7 @@ func run(c *fw.Ctx) {
 	defer runtime.GOMAXPROCS(4)
 	c.Cases("seq", c.N(12*70, 12*700), func(i int, r *fw.Rand) { runHistory(c, i, r, false) })
 	c.Cases("conc", c.N(12*20, 12*200), func(i int, r *fw.Rand) { runHistory(c, i, r, true) })
+	c.Cases("sizerace", c.N(180, 3600), func(i int, r *fw.Rand) { runSizeRace(c, i, r) })
 }
 
 // mrec is the model's record of one delivered message.
